@@ -501,13 +501,16 @@ class Entry(object):
         persons = self.persons[role]
         return ' and '.join(str(person) for person in persons)
 
-    def _find_crossref_field(self, name, bib_data):
+    def _find_crossref_field(self, name, bib_data, _visited=()):
         if bib_data is None or 'crossref' not in self.fields:
             raise KeyError(name)
+        if any(entry is self for entry in _visited):
+            # circular cross-reference: the field is not defined anywhere
+            raise KeyError(name)
         referenced_entry = bib_data.entries[self.fields['crossref']]
-        return referenced_entry._find_field(name, bib_data)
+        return referenced_entry._find_field(name, bib_data, _visited + (self,))
 
-    def _find_field(self, name, bib_data=None):
+    def _find_field(self, name, bib_data=None, _visited=()):
         """
         Find the field with the given ``name`` according to this rules:
 
@@ -528,7 +531,7 @@ class Entry(object):
             try:
                 return self._find_person_field(name)
             except KeyError:
-                return self._find_crossref_field(name, bib_data)
+                return self._find_crossref_field(name, bib_data, _visited)
 
     def to_string(self, bib_format, **kwargs):
         """
